@@ -765,22 +765,30 @@ impl<C: CellType> OptRebuild<'_, C> {
                                 None,
                             ];
                         } else if inc.variables().all(|x| constant.contains(&x)) {
-                            if let Some(m) = mul
-                                .wrapping_pow(c)
-                                .wrapping_mul(mul)
-                                .wrapping_add(C::NEG_ONE)
-                                .wrapping_div(mul.wrapping_add(C::NEG_ONE))
-                            {
-                                return [
-                                    Some(
-                                        Expr::val(mul.wrapping_pow(c))
-                                            .mul(Expr::var(var))
-                                            .add(Expr::val(m).mul(inc)),
-                                    ),
-                                    None,
-                                    None,
-                                ];
+                            // Sum of the first `c` powers of `mul`. This can not be
+                            // computed as `(mul^c - 1) / (mul - 1)`, because the modular
+                            // division is ambiguous whenever `mul - 1` is even.
+                            let mut m = C::ZERO;
+                            let (mut pow, mut block_sum, mut block_pow) = (C::ONE, C::ONE, mul);
+                            let mut rem = c;
+                            while rem != C::ZERO {
+                                if rem.is_odd() {
+                                    m = m.wrapping_add(pow.wrapping_mul(block_sum));
+                                    pow = pow.wrapping_mul(block_pow);
+                                }
+                                block_sum = block_sum.wrapping_mul(C::ONE.wrapping_add(block_pow));
+                                block_pow = block_pow.wrapping_mul(block_pow);
+                                rem = rem.wrapping_shr(1);
                             }
+                            return [
+                                Some(
+                                    Expr::val(mul.wrapping_pow(c))
+                                        .mul(Expr::var(var))
+                                        .add(Expr::val(m).mul(inc)),
+                                ),
+                                None,
+                                None,
+                            ];
                         }
                     }
                 }
